@@ -169,8 +169,11 @@ class Run:
                 self.undecide(o.name, "side obligation not discharged (model or contract too weak); not a property-level refutation", o.instance)
                 continue
             if o.level == "helper":
+                # the summary of a callee no longer describes its body: every property-level proof that used the summary is void.
+                # (Re-proving with the body inlined is not implemented: the run is UNDECIDED, never silently green.)
                 lines.append(f"CONTRACT-DRIFT function={o.info.get('function', o.name)} obligation={o.name}")
                 self.notes.append(f"helper contract refuted: {o.name}")
+                self.undecide(o.name, f"helper contract of {o.info.get('function', '?')} refuted: the property-level obligations proved through it are not established", o.instance)
                 continue
             self._violation(o, replay_fn, lines)
         bad_canaries = [c for c in self.canaries if c["observed"] != "refuted"]
